@@ -182,6 +182,15 @@ def run(ctx):
         ctx.ob("C06.7", "prints-a-response|%s" % g2.id, "the library prints a response only in the connection parser's error arms, respond, upgrade, as_reader and the Request's destructor (never while building a request or elsewhere)",
                (g2.id, bb2) in allowed, g2.loc(bb2))
     ctx.floor("C06.7 sites printing a final response", n, 4)
+    # ---- C06.8 flushing the request's writer takes its turn and flushes the socket (the writer chain's rule C01.2, taken over)
+    import rules_C01, engine
+    c2_ = engine.Ctx("C06", "quick", facts, 0)
+    try:
+        rules_C01.run(c2_)
+        n_ = engine.take_over(ctx, c2_.obs, lambda o: o.rule == "C01.2" and "flush" in o.key, "C06.8", "a response that was printed reaches the wire when the answering call returns: ")
+        ctx.floor("C06.8 obligations on the writer's flush", n_, 1)
+    except CheckerError as e:
+        ctx.ob("C06.8", "writer-flush", "the turn-taking writer could be evaluated", False, "sequential.rs", str(e))
     return {}
 
 
